@@ -724,6 +724,32 @@ fn run_on_caller_stack(scenario: &Value, stats: &mut Stats) -> Outcome {
             Family::Chunks => {
                 cx.chunks(&[]);
                 let nb = boards::pwb_boards().len();
+                {
+                    // the end of the 16-bit chunk-id range: a full-size packet cut into 65535 one-byte
+                    // chunks and a last chunk (all 65536 ids in use); also one id short of that and with
+                    // the last chunk sent twice
+                    let g = PwbGen { board: r.usize(0, nb - 1), chip: r.below(4) as u8, channels: (1..=79).collect(), requested_samples: 511, sample_seed: r.next_u64(), kind: "valid".into() };
+                    let payload = g.payload();
+                    let board = &boards::pwb_boards()[g.board];
+                    if payload.len() > 65536 {
+                        for n_small in [65535usize, 65534] {
+                            let mut specs = chunk_message(board.device_id, g.chip, 0, 0, &payload[..n_small], 1);
+                            if let Some(l) = specs.last_mut() {
+                                l.flags &= !1;
+                            }
+                            let mut last = specs[0].clone();
+                            last.chunk_id = n_small as u16;
+                            last.flags |= 1;
+                            last.payload = payload[n_small..].to_vec();
+                            specs.push(last.clone());
+                            cx.stats.probe("chunk_list_using_all_65536_ids");
+                            let mut datagrams: Vec<Vec<u8>> = specs.iter().map(|c| c.encode()).collect();
+                            cx.chunks(&datagrams);
+                            datagrams.push(last.encode());
+                            cx.chunks(&datagrams);
+                        }
+                    }
+                }
                 for _ in 0..40 {
                     let g = PwbGen {
                         board: r.usize(0, nb - 1),
